@@ -70,6 +70,17 @@ def validate(steps):
             if own[st["c"]] == own[st["child"]]:
                 return False
             nent[own[st["c"]]] += 1
+        elif op == "ADD_LIVE":
+            subs.add((own.get(st["c"]), nent.get(own.get(st["c"]), 0)))
+            if st["c"] not in decl or st["child"] not in decl or st["c"] == st["child"]:
+                return False
+            if own[st["c"]] == own[st["child"]]:
+                return False
+            nent[own[st["c"]]] += 1
+            # the nested circuit is only reachable through its parent afterwards
+            for hname in [x for x in defined if own.get(x) == own[st["child"]]]:
+                defined.discard(hname)
+                decl.discard(hname)
         elif op == "COPY":
             if st["c"] not in defined or st["as"] in defined:
                 return False
@@ -129,7 +140,7 @@ def remove_step(steps, idx):
             out = keep
         # removing ADD_SUB / ADD_OP steps above shifts entry indices: redo via fixpoint below
         return _reindex(steps, out)
-    if op in ("ADD_OP", "ADD_SUB"):
+    if op in ("ADD_OP", "ADD_SUB", "ADD_LIVE"):
         return _reindex(steps, out)
     if op == "OVR_ENTER":
         # drop the matching leave
@@ -154,7 +165,7 @@ def _reindex(orig, out):
     slot = {}
     cnt = {}
     for st in orig:
-        if st["op"] in ("ADD_OP", "ADD_SUB"):
+        if st["op"] in ("ADD_OP", "ADD_SUB", "ADD_LIVE"):
             o = own.get(st["c"], st["c"])
             k = cnt.get(o, 0)
             cnt[o] = k + 1
@@ -173,7 +184,7 @@ def _reindex(orig, out):
     cnt = {}
     own2 = owners(out)
     for o_st, s in zip(survivors, out):
-        if s["op"] in ("ADD_OP", "ADD_SUB"):
+        if s["op"] in ("ADD_OP", "ADD_SUB", "ADD_LIVE"):
             o = own2.get(s["c"], s["c"])
             k = cnt.get(o, 0)
             cnt[o] = k + 1
